@@ -102,7 +102,8 @@ def run(spec, cfg, *, workers=16, timeout=900, coverage=True, extra=(), env=None
     r = Result(p.stdout + p.stderr, p.returncode, time.time() - t0)
     if r.rc != 0 and r.violated is None:
         # 12 = safety violation, 13 = liveness; others are machinery failures
-        raise TLCError("TLC failed rc=%d on %s/%s:\n%s" % (r.rc, spec, cfg, r.out[-3000:]))
+        i = r.out.find("Error:")
+        raise TLCError("TLC failed rc=%d on %s/%s:\n%s" % (r.rc, spec, cfg, r.out[i:i + 2500] if i >= 0 else r.out[-2500:]))
     return r
 
 
